@@ -60,15 +60,20 @@ RoundTrip(fmt) ==
         /\ ev' = [op |-> "RoundTrip", fmt |-> fmt, tree |-> tree, out |-> Outcome(r),
                   keys |-> KeysUsed(S, cfg)]
 
-Render(virtual, mask) ==
+\* via = "tree": to_tree(virtual, sensitive_mask); otherwise the document written by
+\* dumps(via, virtual, sensitive_mask), decoded again with that format
+Vias == {"tree"} \cup Formats
+Render(virtual, mask, via) ==
+    LET tree == ToTree(S, cfg, virtual, mask) IN
     /\ UNCHANGED cfg
-    /\ ev' = [op |-> "Render", virtual |-> virtual, mask |-> mask, tree |-> ToTree(S, cfg, virtual, mask), out |-> "ok"]
+    /\ ev' = [op |-> "Render", virtual |-> virtual, mask |-> mask, via |-> via, tree |-> tree,
+              out |-> IF via = "tree" \/ InFormatDomain(via, tree) THEN "ok" ELSE "Unmodelled"]
 
 Tick == steps < MaxDepth /\ steps' = steps + 1
 Next ==
     \/ \E pk \in DOMAIN SetCands : \E v \in SetCands[pk] : Tick /\ Set(pk, v)
     \/ \E f \in Formats : Tick /\ RoundTrip(f)
-    \/ \E vi \in BOOLEAN, m \in Masks : Tick /\ Render(vi, m)
+    \/ \E vi \in BOOLEAN, m \in Masks, via \in Vias : Tick /\ Render(vi, m, via)
 
 ---------------------------------------------------------------------------
 (* C02 *)
@@ -160,7 +165,7 @@ MaskedOk(Sx, c, m, u, mask) ==
                 /\ \A j \in DOMAIN mv.l : MaskedOk(f.item, c.vals[k].l[j], mv.l[j], uv.l[j], mask)
             ELSE mv = uv
 C10_Mask ==
-    (ev.op = "Render" /\ ev.mask.m # "none") =>
+    (ev.op = "Render" /\ ev.mask.m # "none" /\ ev.out = "ok") =>
         MaskedOk(S, cfg, ev.tree, ToTree(S, cfg, ev.virtual, NoMask), ev.mask)
 
 Export == PrintT(<<"EDGE", ToJson([from |-> St, ev |-> ev', to |-> St'])>>)
